@@ -265,6 +265,20 @@ package tree
 //@   loop 2
 //@     assigns elems(n.br)
 
+// removeSingleNodesRecur (properties C03, C15): the recursion descends into each neighbour recorded at entry with
+// the branch that was recorded next to it (the live lists shift while single nodes are spliced out); the
+// merged branch takes the larger support and, when both lengths are present, their sum
+//@ func (*tree.Tree).removeSingleNodesRecur
+//@   flag noframe
+//@   flag lightcalls
+//@   requires t != nil && current != nil && len(current.neigh) == len(current.br)
+//@   call (*tree.Tree).removeSingleNodesRecur [descends_with_the_branch_recorded_next_to_the_neighbour_at_entry] a2 == current && (exists k int :: 0 <= k && k < old(len(current.neigh)) && a1 == old(current.neigh[k]) && a3 == old(current.br[k]))
+//@   call (*tree.Node).delNeighbor [the_single_node_and_its_parent_forget_each_other] (a0 == current && a1 == previous) || (a0 == previous && a1 == current)
+//@   call (*tree.Edge).SetLength [child_branch_gets_the_sum_of_the_two_lengths_when_both_are_present] a1 == a0.length + length && a0.length != -1.0 && length != -1.0
+//@   call (*tree.Tree).unconnectNode [the_single_node_is_emptied] a1 == current
+//@   loop 1
+//@     invariant [snapshot_is_the_adjacency_at_entry] len(tmpnodes) == old(len(current.neigh)) && len(tmpedges) == old(len(current.br)) && (forall k int :: {tmpnodes[k]} {tmpedges[k]} 0 <= k && k < len(tmpnodes) ==> tmpnodes[k] == old(current.neigh[k]) && tmpedges[k] == old(current.br[k]))
+
 // resolveRecur (property C07): a node is left with at most three neighbours; a detached neighbour is re-attached
 // under the new node with the length, support and p-value of the branch it hung on; the branch joining the new
 // node gets length 0 and no support
